@@ -179,6 +179,18 @@ def run(ctx):
                            (opn == "lt" and n == 3 and o is True) or (opn == "le" and n == 2 and o is True):
                             if is_list(kids(l)[0]):
                                 cap = True
+            if not dup:
+                # a registry that did not exist yet: the list stored is the one-element list built from the empty one -
+                # membership in the empty list is decided (never), there is nothing to test
+                vals = [ix.inline(a.c(wr["value"])) for wr in stores if wr.get("value") is not None]
+                absent = False
+                for (at2, o2) in alt:
+                    if tag(at2) == "op" and payload(at2)[0] in ("is_some", "is_none") and o2 is (payload(at2)[0] == "is_none") and \
+                            any(tag(x) == "call" and str(payload(x)[0]).endswith("::may_load") and guards.admin_const(kids(x)[0]) is not None or
+                                (tag(x) == "call" and str(payload(x)[0]).endswith("::may_load") and "VAMM_LIST" in sym.show(kids(x)[0], 2)) for x in sym.walk(at2)):
+                        absent = True
+                if absent and any(tag(v_) == "vec" and len(kids(v_)) == 1 for v_ in vals):
+                    dup = True
             if not (dup and cap):
                 bad = bad or (q, dup, cap)
         ctx.inst("R14.4", "push-guards:AddVamm", bad is None and n_store > 0, a.fn.where(),
